@@ -20,7 +20,10 @@ Inductive case :=
    other state changed anything (ref), the same digest taken by states created before / after /
    concurrently with states that change every table they can reach (obs), number of library
    functions whose environment is not the inspecting state's own globals *)
-| CLib (ref : list Z) (obs : list (list Z)) (foreign : Z).
+| CLib (ref : list Z) (obs : list (list Z)) (foreign : Z)
+(* channel.make(n) under pcall for each n, next to a state that computes: (n, a channel came back?)
+   and whether the neighbour's result was right; a dead process is a GoFail *)
+| CMake (obs : list (Z * bool)) (neighbour_ok : bool).
 
 Definition zlist_eqb (a b : list Z) : bool := list_eqb Z.eqb a b.
 
@@ -34,6 +37,7 @@ Definition check_impl (c : case) : bool :=
   | CShare _ => true
   | CStress sent recvd dups early disorder => (recvd =? sent) && (dups =? 0) && (early =? 0) && (disorder =? 0)
   | CLib ref obs foreign => forallb (zlist_eqb ref) obs && (foreign =? 0)
+  | CMake obs nb => forallb (fun p => Bool.eqb (make_ok (fst p)) (snd p)) obs && nb
   end.
 
 (* spec: the clauses of the property evaluated on the observed log *)
@@ -45,4 +49,10 @@ Definition check_spec (c : case) : bool :=
   (* exactly once (all channels closed and drained at the end), closure only after a close, per-sender order *)
   | CStress sent recvd dups early disorder => (recvd =? sent) && (dups =? 0) && (early =? 0) && (disorder =? 0)
   | CLib ref obs foreign => forallb (zlist_eqb ref) obs && (foreign =? 0)
+  (* spec: a size that is negative or that no machine can hold must be refused (catchably), a small
+     one must work; in between the property leaves the bound free *)
+  | CMake obs nb =>
+      forallb (fun p => if fst p <? 0 then negb (snd p)
+                        else if fst p <=? 1048576 then snd p
+                        else if 4294967296 <=? fst p then negb (snd p) else true) obs && nb
   end.
